@@ -329,7 +329,20 @@ def r2(prog, rep):
         rep.ob("R2", "option %s applies one operator to exactly its family %s" % (opt, sorted(want[opt])), got == want[opt], f.site(s), "found %s" % got, key="family/" + opt)
     # gfile comparisons use the reversal sign
     src = mod.code(f.node)
-    ok = src.count(K("psi_reverse_sign=-1.0ifself.user_options.reverse_currentelse1.0")) == 2 and K("abs(self.psi_axis-psi_reverse_sign*psi_axis_gfile)>1.0e-3") in src and K("abs(self.psi_bdry-psi_reverse_sign*psi_bdry_gfile)>1.0e-3") in src
+    # psi_reverse_sign is -1.0 exactly when reverse_current is set (conditional expression or if/else),
+    # wherever it is defined, and both gfile comparisons use it
+    defs_ok, ndefs = True, 0
+    for n_ in ast.walk(f.node):
+        if isinstance(n_, ast.Assign) and isinstance(n_.targets[0], ast.Name) and n_.targets[0].id == "psi_reverse_sign" and isinstance(n_.value, ast.IfExp):
+            ndefs += 1
+            defs_ok = defs_ok and mod.code(n_.value) == K("-1.0 if self.user_options.reverse_current else 1.0")
+        if isinstance(n_, ast.If) and mod.code(n_.test) == "self.user_options.reverse_current":
+            a = [s_ for s_ in n_.body if isinstance(s_, ast.Assign) and mod.code(s_.targets[0]) == "psi_reverse_sign"]
+            b = [s_ for s_ in n_.orelse if isinstance(s_, ast.Assign) and mod.code(s_.targets[0]) == "psi_reverse_sign"]
+            if a or b:
+                ndefs += 1
+                defs_ok = defs_ok and len(a) == 1 and len(b) == 1 and mod.code(a[0].value) == K("-1.0") and mod.code(b[0].value) == K("1.0")
+    ok = defs_ok and ndefs >= 1 and K("abs(self.psi_axis-psi_reverse_sign*psi_axis_gfile)>1.0e-3") in src and K("abs(self.psi_bdry-psi_reverse_sign*psi_bdry_gfile)>1.0e-3") in src
     rep.ob("R2", "the gfile axis/boundary values are compared with the same reversal sign as applied to psi", ok, f.site(), "", key="family/gfile-compare")
     # f_psi_sign uniformity
     ctx = Context()
